@@ -27,6 +27,8 @@ type SchemaOpts struct {
 	NoNot, NoDeps bool
 	// NoEnumObject keeps enum values scalar.
 	ScalarEnum bool
+	// TupleOnly makes "items" always a tuple (C17 location claim).
+	TupleOnly bool
 }
 
 type schemaGen struct {
@@ -374,7 +376,11 @@ func (g *schemaGen) format(s map[string]any) {
 }
 
 func (g *schemaGen) array(s map[string]any, depth int) {
-	switch g.pick("itemskind", 5) {
+	kind := g.pick("itemskind", 5)
+	if g.o.TupleOnly && kind < 2 {
+		kind = 2
+	}
+	switch kind {
 	case 0, 1:
 		s["items"] = g.sub(depth)
 		if g.coin("addlitems-with-schema-items", 4) {
